@@ -538,6 +538,8 @@ def run(ctx, rep):
     from rules.C03 import search_rules
     count_rule(facts, rep, rule="C01-COUNT", only=r"ZipWriter<W>>::write$|MaybeEncrypted|Crc32Reader")
     search_rules(ctx, facts, rep)
+    from rules.C03 import offset_rules
+    offset_rules(facts, rep)           # reported as C01/C03-OFFSET: the reader locates the directory (ZIP64 locator probe, archive offset) of what the writer wrote, comment included
     from rules.shared_count import exact_rule
     exact_rule(facts, rep)             # reported as C01/C09-EXACT: content is handed to the sink with exact-length primitives (a bare write() drops the tail on a short write)
     # archives with more than 65535 entries / beyond 4 GiB are in C01's quantifier: the end records that make them readable
